@@ -3,6 +3,7 @@ package main
 import (
 	"fmt"
 	"go/token"
+	"go/types"
 	"sort"
 	"strings"
 
@@ -361,7 +362,7 @@ func ruleC15RemoveOrder(r *Run, p *Program, rule string) {
 		w.From()
 		okv := true
 		for _, ret := range returnsOf(g) {
-			if w.Visited[ret] && !isFailureReturn(g, ret) {
+			if w.succ(g, ret) {
 				okv = false
 			}
 		}
@@ -439,7 +440,7 @@ func ruleC04SizeMirror(r *Run, p *Program, rule string) {
 			w.From(c)
 			bad := false
 			for _, ret := range returnsOf(f) {
-				if w.Visited[ret] && !isFailureReturn(f, ret) {
+				if w.succ(f, ret) {
 					bad = true
 					r.bad(rule, construct, pos, "the length of a database file is changed through the embedded fs.File ("+m+") without updating file.size on the success path: the next append is placed at a stale offset and the records it writes are discarded by the next recovery", w.PathTo(p, ret)...)
 					break
@@ -507,6 +508,14 @@ func decodedTaintAll(p *Program) map[ssa.Value]bool {
 						if f.Signature.Results().Len() == 1 && rets[f][0] {
 							mark = true
 						}
+						// methods on a value that carries decoded data
+						for _, a := range x.Call.Args {
+							if t[a] {
+								if _, isStruct := a.Type().Underlying().(*types.Struct); isStruct {
+									mark = true
+								}
+							}
+						}
 						// pure helpers: a tainted argument taints the (integer) result
 						if _, isInt, _ := intBits(x.Type(), false); isInt || true {
 							if _, _, ok := intBits(x.Type(), false); ok {
@@ -520,6 +529,28 @@ func decodedTaintAll(p *Program) map[ssa.Value]bool {
 					}
 				case *ssa.BinOp:
 					mark = t[x.X] || t[x.Y]
+				case *ssa.Field:
+					mark = t[x.X]
+				case *ssa.FieldAddr:
+					mark = t[x.X]
+				case *ssa.Alloc:
+					// a local cell holding a decoded value / a struct one of whose fields holds one
+					for _, sv := range allocStores(x) {
+						if t[sv] {
+							mark = true
+						}
+					}
+					if refs := x.Referrers(); refs != nil {
+						for _, rf := range *refs {
+							if fa, ok := rf.(*ssa.FieldAddr); ok {
+								for _, sv := range allocStores(fa) {
+									if t[sv] {
+										mark = true
+									}
+								}
+							}
+						}
+					}
 				case *ssa.UnOp:
 					mark = t[x.X]
 				case *ssa.Convert:
